@@ -341,8 +341,8 @@ func (w *world) askOp(kind, args, want string, post snap, relevant map[int]bool)
 	}
 	lastCmd := ""
 	defer func() { w.mcmds = append(w.mcmds, lastCmd, "commit") }()
-	try := func(p1, p2, p3 []int, rank string) (string, bool) {
-		cmd := fmt.Sprintf("try %s %s %s %s %s %s", kind, permStr(p1), permStr(p2), permStr(p3), rank, args)
+	try4 := func(p1, p2, p3, p4 []int, rank string) (string, bool) {
+		cmd := fmt.Sprintf("try %s %s %s %s %s %s %s", kind, permStr(p1), permStr(p2), permStr(p3), permStr(p4), rank, args)
 		ans := w.m.Ask(cmd)
 		lastCmd = cmd
 		main := ans
@@ -352,6 +352,7 @@ func (w *world) askOp(kind, args, want string, post snap, relevant map[int]bool)
 		}
 		return ans, main == want && stale == post.stale
 	}
+	try := func(p1, p2, p3 []int, rank string) (string, bool) { return try4(p1, p2, p3, p1, rank) }
 	rank2 := "-" // descending nonce order
 	{
 		var rr []string
@@ -372,6 +373,7 @@ func (w *world) askOp(kind, args, want string, post snap, relevant map[int]bool)
 		return ans, true
 	}
 	// accounts owning the implementation's stale heap entries were processed after the last reheap: try them last
+	// (in the demote range, in the promote ranges, or in both: they are independent map ranges in Go)
 	if post.stale != "" {
 		last := map[int]bool{}
 		for _, s := range strings.Split(post.stale, ",") {
@@ -389,18 +391,18 @@ func (w *world) askOp(kind, args, want string, post snap, relevant map[int]bool)
 				front = append(front, a)
 			}
 		}
-		// every rotation of the remaining relevant accounts in front of them
 		for rot := 0; rot <= len(front); rot++ {
 			p := append(append(append([]int{}, front[rot:]...), front[:rot]...), back...)
 			for _, rank := range []string{"-", rank1, rank2} {
-				if ans, ok := try(p, base, base, rank); ok {
-					w.c.Count("oracle-search/stale-owner-last")
-					return ans, true
+				for _, c4 := range [][2][]int{{p, p}, {base, p}, {p, base}} {
+					if ans, ok := try4(c4[0], base, base, c4[1], rank); ok {
+						w.c.Count("oracle-search/stale-owner-last")
+						return ans, true
+					}
 				}
 			}
 		}
 	}
-	// sorted ascending copy of base positions: enumerate permutations of the accounts
 	if nrel > n {
 		nrel = n
 	}
@@ -415,16 +417,50 @@ func (w *world) askOp(kind, args, want string, post snap, relevant map[int]bool)
 			p = append(p, base[n-nrel+j])
 		}
 		for _, rank := range []string{"-", rank1, rank2} {
-			for _, combo := range [][3][]int{{p, p, p}, {base, base, p}, {base, p, base}, {p, base, base}} {
+			for _, combo := range [][4][]int{{p, p, p, p}, {base, base, base, p}, {base, base, p, base}, {base, p, base, base}, {p, base, base, base}, {p, base, base, p}} {
 				tries++
-				if ans, ok := try(combo[0], combo[1], combo[2], rank); ok {
+				if ans, ok := try4(combo[0], combo[1], combo[2], combo[3], rank); ok {
 					w.c.Count("oracle-search/permutation")
 					return ans, true
 				}
 			}
 		}
-		if tries > 12000 || !nextPerm(idx) {
+		if tries > 15000 || !nextPerm(idx) {
 			break
+		}
+	}
+	// the demote range against every promote range order, for small account sets
+	if nrel <= 4 {
+		idx4 := make([]int, nrel)
+		for i := range idx4 {
+			idx4[i] = i
+		}
+		for {
+			p4 := append([]int{}, base[:n-nrel]...)
+			for _, j := range idx4 {
+				p4 = append(p4, base[n-nrel+j])
+			}
+			for i := range idx {
+				idx[i] = i
+			}
+			for {
+				p1 := append([]int{}, base[:n-nrel]...)
+				for _, j := range idx {
+					p1 = append(p1, base[n-nrel+j])
+				}
+				for _, rank := range []string{"-", rank1, rank2} {
+					if ans, ok := try4(p1, base, base, p4, rank); ok {
+						w.c.Count("oracle-search/permutation-pair")
+						return ans, true
+					}
+				}
+				if !nextPerm(idx) {
+					break
+				}
+			}
+			if !nextPerm(idx4) {
+				break
+			}
 		}
 	}
 	// leave the base candidate as the model's state
@@ -1037,7 +1073,9 @@ func (w *world) runHistory(pc poolCfg) {
 							competitor = true
 						}
 					}
-					if valid && !competitor && uint64(len(after.queued[t.from])) < pc.aq {
+					// (no claim when the pool is full: a reinjected transaction may then be refused as underpriced or evicted)
+					pressure := uint64(len(before.all)+len(reinjectWant)) >= pc.gs+pc.gq
+					if valid && !competitor && !pressure && uint64(len(after.queued[t.from])) < pc.aq {
 						c.Violate("reorg-drops-valid-tx/"+pc.name, fmt.Sprintf("tx %d dropped out of the canonical chain, is still valid, and is not in the pool after the reorganisation", t.id), w.replay(desc))
 					}
 				}
@@ -1528,7 +1566,7 @@ func main() {
 		w.runHistory(poolCfg{name: "default", as: 16, gs: 4096, aq: 64, gq: 1024, bump: 10, nsenders: 2, gp: 1,
 			st: []acct{{0, big.NewInt(100000000)}, {0, big.NewInt(100000000)}}, script: directedCaps(k)})
 	}
-	nh := c.Scale(100, 6000)
+	nh := c.Scale(80, 6000)
 	for i := 0; i < nh; i++ {
 		var pc poolCfg
 		switch i % 4 {
